@@ -12,12 +12,22 @@ AXIOM_WHITELIST = {
 FORBIDDEN = re.compile(r"\b(Admitted|admit|Axiom|Parameter|Conjecture|Unset\s+Guard|bypass_check|Admit\s+Obligations|type-in-type)\b")
 
 
+def project_files():
+    """the .v files of the development = what _CoqProject lists (what `make` builds and the theorems depend on)"""
+    out = []
+    with open(os.path.join(COQ, "_CoqProject")) as f:
+        for line in f:
+            line = line.strip()
+            if line.endswith(".v") and not line.startswith("-"):
+                out.append(os.path.join(COQ, line))
+    return out
+
+
 def scan_forbidden():
     hits = []
-    for root, _, files in os.walk(os.path.join(COQ, "theories")):
-        for fn in files:
-            if fn.endswith(".v"):
-                path = os.path.join(root, fn)
+    for path in project_files():
+        if os.path.exists(path):
+            if True:
                 with open(path) as f:
                     text = f.read()
                 # strip comments (non-nested approximation is enough: forbidden words in comments are flagged too,
